@@ -1,0 +1,11 @@
+//go:build verif
+
+// Contracts for govc (contract-based deductive verification, /verif). Comment-only file:
+// it is compiled only under the build tag "verif" and contains no code.
+
+package bfe_module
+
+//@ func NewHandlerList
+//@   props C48
+//@   nopanic
+//@   ensures[an_empty_list_of_the_given_kind] result0 != nil && result0.handlerType == handlerType && result0.handlers != nil
